@@ -30,7 +30,7 @@ References: https://www.iucr.org/resources/cif
 import io
 import re
 import sys
-from contextlib import contextmanager
+from contextlib import contextmanager, redirect_stdout
 
 import numpy
 
@@ -922,7 +922,9 @@ def _suppressCifParserOutput():
     # replace the print_error function with no-operation
     yapps3_compiled_rt.print_error = lambda *a, **kw: None
     try:
-        yield print_error
+        # PyCifRW 5 also prints its syntax error report to standard output
+        with redirect_stdout(io.StringIO()):
+            yield print_error
     finally:
         yapps3_compiled_rt.print_error = print_error
     pass
